@@ -15,7 +15,7 @@ agent_meta = json.load(open(os.path.join(src, "meta.json")))
 # baseline: which violations exist at the base commit without the patch (pre-fix findings), to subtract
 def run(patch):
     env = dict(os.environ, MAXL="40")
-    p = subprocess.run(["/verif/engine/try_seed_at.sh", base, patch], capture_output=True, text=True, env=env)
+    p = subprocess.run(["/verif/engine/try_patch_fast.sh", base, patch], capture_output=True, text=True, env=env)
     keys = {}
     cur = None
     for line in p.stdout.splitlines():
